@@ -19,6 +19,7 @@ EXPLANATION = (
     "push_str(e) iff the strip succeeded, where e is the NEW options' line_ending.as_str(), read before the options are moved. "
     "T: together with C15 (unfill inverts fill) refill(fill(t,o1),o2) = fill(t, o2 with o1's indents). "
     "U (not applicable statically): equality with fill(t, o2) for all paragraphs is the composition of two runs."
+    " (R4) imported lemma C15 (all unfill rules): refill re-fills what unfill recovered."
 )
 ASSUMPTIONS = ["A-rustc", "A-std (strip_suffix)", "C15 (paper) for the round trip"]
 LEVEL_TEXT = (
@@ -103,3 +104,12 @@ def run(prog, rep):
     from . import optconv
     optconv.check(prog, rep, 'C16')
     guarded(rep, "C16.R1", KEY, lambda: _check(prog, rep))
+    # refill = fill(unfill(..)): it recovers the original paragraph and indents only if unfill does (C15)
+    from .. import lemmas
+    lemmas.load_all()
+    st = lemmas.status(prog, "C15")
+    if st == "ok":
+        rep.ok("C16.R4", "crate", "lemma C15 holds in this run", "evaluated: ok", nontrivial=False)
+    else:
+        rep.violation("C16.R4", "crate", "lemma:C15", "crate", "lemma C15 (unfill inverts fill) is %s in this run: refill would "
+                      "re-fill a different paragraph or with different indents" % st)
